@@ -118,10 +118,8 @@ Definition judge_group (c : gcase) : nat :=
     let cwds := same_out (g_md c) (g_md2 c) in
     let prec := cli_wins base c (g_md c) && cli_wins base c (g_tm c) && cli_wins base c (g_cf c) in
     let violation := negb (md_toml && toml_cfg && cwds && prec) in
-    (* the only recorded region for well-typed options: --config on a post-init-sensitive option *)
-    let region := if md_toml && cwds && prec && negb toml_cfg && negb (config_safe (g_opts c))
-                  then 1 else 0 in
-    verdict mismatch violation region.
+    (* no recorded region for well-typed options: the three formats must agree *)
+    verdict mismatch violation 0.
 
 (* ------------------------------------------------------------------ raw inputs *)
 Inductive spec : Type :=
@@ -139,13 +137,9 @@ Definition ill_region (fmt : nat) (opt : str) : nat :=
   match fmt with
   | 1 => 2                                             (* fpm.toml values are never checked *)
   | 2 => 3                                             (* --config values are never checked *)
-  | _ => match field_ty opt with
-         | Some TInt | Some TOptInt => 4               (* markdown int error does not name the option *)
-         | _ => 0
-         end
+  | _ => 0
   end.
-Definition unk_region (fmt : nat) : nat :=
-  match fmt with 1 => 5 | 2 => 6 | _ => 0 end.
+Definition unk_region (fmt : nat) : nat := 0.
 
 (* the message of ExtraFileType.from_string says 'extra_filetype': accepted as naming the option *)
 Definition names_option (opt msg : str) : bool :=
